@@ -33,46 +33,82 @@ def shapeIdxC : List (List Nat) := shapes.flatMap fun s => (List.range (k0 s)).m
 def shapes3 : List (List Nat) := shapes.flatMap fun s => [2,3,4].map fun c2 => s ++ [c2]
 def shapes4 : List (List Nat) := shapes.flatMap fun s => shapes.map fun t => s ++ t
 
-def families : List Family := [
-  { name := "mul", kind := .poly, keys := shapes3, nOut := fun k => k2 k * k1 k, spec := fun k => mul (k0 k) (k1 k) (k2 k) },
-  { name := "asgmul_m", kind := .poly, keys := squares, nOut := fun k => k0 k * k0 k, spec := fun k => mul (k0 k) (k0 k) (k0 k) },
-  { name := "mulmv", kind := .poly, keys := shapes, nOut := k1, spec := fun k => mulmv (k0 k) (k1 k) },
-  { name := "mulvm", kind := .poly, keys := shapes, nOut := k0, spec := fun k => mulvm (k0 k) (k1 k) },
-  { name := "transpose", kind := .poly, keys := shapes, nOut := fun k => k0 k * k1 k, spec := fun k => transpose (k0 k) (k1 k) },
-  { name := "outer", kind := .poly, keys := shapes, nOut := fun k => k0 k * k1 k, spec := fun k => outer (k0 k) (k1 k) },
-  { name := "compmult", kind := .poly, keys := shapes, nOut := fun k => k0 k * k1 k, spec := fun k j => .mul (v j) (v (k0 k * k1 k + j)) },
-  { name := "addmm", kind := .poly, keys := shapes, nOut := fun k => k0 k * k1 k, spec := fun k j => .add (v j) (v (k0 k * k1 k + j)) },
-  { name := "submm", kind := .poly, keys := shapes, nOut := fun k => k0 k * k1 k, spec := fun k j => .sub (v j) (v (k0 k * k1 k + j)) },
-  { name := "addms", kind := .poly, keys := shapes, nOut := fun k => k0 k * k1 k, spec := fun k j => .add (v j) (v (k0 k * k1 k)) },
-  { name := "addsm", kind := .poly, keys := [[2,2],[3,3],[4,4]], nOut := fun k => k0 k * k1 k, spec := fun k j => .add (v (k0 k * k1 k)) (v j) },
-  { name := "subms", kind := .poly, keys := shapes, nOut := fun k => k0 k * k1 k, spec := fun k j => .sub (v j) (v (k0 k * k1 k)) },
-  { name := "subsm", kind := .poly, keys := [[2,2],[3,3],[4,4]], nOut := fun k => k0 k * k1 k, spec := fun k j => .sub (v (k0 k * k1 k)) (v j) },
-  { name := "mulms", kind := .poly, keys := shapes, nOut := fun k => k0 k * k1 k, spec := fun k j => .mul (v j) (v (k0 k * k1 k)) },
-  { name := "mulsm", kind := .poly, keys := shapes, nOut := fun k => k0 k * k1 k, spec := fun k j => .mul (v (k0 k * k1 k)) (v j) },
-  { name := "divms", kind := .frac, keys := shapes, nOut := fun k => k0 k * k1 k, spec := fun k j => .div (v j) (v (k0 k * k1 k)), allowed := fun k => [v (k0 k * k1 k)] },
-  { name := "divsm", kind := .frac, keys := shapes, nOut := fun k => k0 k * k1 k, spec := fun k j => .div (v (k0 k * k1 k)) (v j), allowed := fun k => (List.range (k0 k * k1 k)).map v },
-  { name := "negm", kind := .poly, keys := shapes, nOut := fun k => k0 k * k1 k, spec := fun _ j => .neg (v j) },
-  { name := "posm", kind := .poly, keys := shapes, nOut := fun k => k0 k * k1 k, spec := fun _ j => v j },
-  { name := "preinc", kind := .poly, keys := shapes, nOut := fun k => 2 * (k0 k * k1 k), spec := fun k j => .add (v (j % (k0 k * k1 k))) one },
-  { name := "predec", kind := .poly, keys := shapes, nOut := fun k => 2 * (k0 k * k1 k), spec := fun k j => .sub (v (j % (k0 k * k1 k))) one },
+def f_mul : Family :=
+  { name := "mul", kind := .poly, keys := shapes3, nOut := fun k => k2 k * k1 k, spec := fun k => mul (k0 k) (k1 k) (k2 k) }
+def f_asgmul_m : Family :=
+  { name := "asgmul_m", kind := .poly, keys := squares, nOut := fun k => k0 k * k0 k, spec := fun k => mul (k0 k) (k0 k) (k0 k) }
+def f_mulmv : Family :=
+  { name := "mulmv", kind := .poly, keys := shapes, nOut := k1, spec := fun k => mulmv (k0 k) (k1 k) }
+def f_mulvm : Family :=
+  { name := "mulvm", kind := .poly, keys := shapes, nOut := k0, spec := fun k => mulvm (k0 k) (k1 k) }
+def f_transpose : Family :=
+  { name := "transpose", kind := .poly, keys := shapes, nOut := fun k => k0 k * k1 k, spec := fun k => transpose (k0 k) (k1 k) }
+def f_outer : Family :=
+  { name := "outer", kind := .poly, keys := shapes, nOut := fun k => k0 k * k1 k, spec := fun k => outer (k0 k) (k1 k) }
+def f_compmult : Family :=
+  { name := "compmult", kind := .poly, keys := shapes, nOut := fun k => k0 k * k1 k, spec := fun k j => .mul (v j) (v (k0 k * k1 k + j)) }
+def f_addmm : Family :=
+  { name := "addmm", kind := .poly, keys := shapes, nOut := fun k => k0 k * k1 k, spec := fun k j => .add (v j) (v (k0 k * k1 k + j)) }
+def f_submm : Family :=
+  { name := "submm", kind := .poly, keys := shapes, nOut := fun k => k0 k * k1 k, spec := fun k j => .sub (v j) (v (k0 k * k1 k + j)) }
+def f_addms : Family :=
+  { name := "addms", kind := .poly, keys := shapes, nOut := fun k => k0 k * k1 k, spec := fun k j => .add (v j) (v (k0 k * k1 k)) }
+def f_addsm : Family :=
+  { name := "addsm", kind := .poly, keys := [[2,2],[3,3],[4,4]], nOut := fun k => k0 k * k1 k, spec := fun k j => .add (v (k0 k * k1 k)) (v j) }
+def f_subms : Family :=
+  { name := "subms", kind := .poly, keys := shapes, nOut := fun k => k0 k * k1 k, spec := fun k j => .sub (v j) (v (k0 k * k1 k)) }
+def f_subsm : Family :=
+  { name := "subsm", kind := .poly, keys := [[2,2],[3,3],[4,4]], nOut := fun k => k0 k * k1 k, spec := fun k j => .sub (v (k0 k * k1 k)) (v j) }
+def f_mulms : Family :=
+  { name := "mulms", kind := .poly, keys := shapes, nOut := fun k => k0 k * k1 k, spec := fun k j => .mul (v j) (v (k0 k * k1 k)) }
+def f_mulsm : Family :=
+  { name := "mulsm", kind := .poly, keys := shapes, nOut := fun k => k0 k * k1 k, spec := fun k j => .mul (v (k0 k * k1 k)) (v j) }
+def f_divms : Family :=
+  { name := "divms", kind := .frac, keys := shapes, nOut := fun k => k0 k * k1 k, spec := fun k j => .div (v j) (v (k0 k * k1 k)), allowed := fun k => [v (k0 k * k1 k)] }
+def f_divsm : Family :=
+  { name := "divsm", kind := .frac, keys := shapes, nOut := fun k => k0 k * k1 k, spec := fun k j => .div (v (k0 k * k1 k)) (v j), allowed := fun k => (List.range (k0 k * k1 k)).map v }
+def f_negm : Family :=
+  { name := "negm", kind := .poly, keys := shapes, nOut := fun k => k0 k * k1 k, spec := fun _ j => .neg (v j) }
+def f_posm : Family :=
+  { name := "posm", kind := .poly, keys := shapes, nOut := fun k => k0 k * k1 k, spec := fun _ j => v j }
+def f_preinc : Family :=
+  { name := "preinc", kind := .poly, keys := shapes, nOut := fun k => 2 * (k0 k * k1 k), spec := fun k j => .add (v (j % (k0 k * k1 k))) one }
+def f_predec : Family :=
+  { name := "predec", kind := .poly, keys := shapes, nOut := fun k => 2 * (k0 k * k1 k), spec := fun k j => .sub (v (j % (k0 k * k1 k))) one }
+def f_postinc : Family :=
   { name := "postinc", kind := .poly, keys := shapes, nOut := fun k => 2 * (k0 k * k1 k),
-    spec := fun k j => if j < k0 k * k1 k then v j else .add (v (j - k0 k * k1 k)) one },
+    spec := fun k j => if j < k0 k * k1 k then v j else .add (v (j - k0 k * k1 k)) one }
+def f_postdec : Family :=
   { name := "postdec", kind := .poly, keys := shapes, nOut := fun k => 2 * (k0 k * k1 k),
-    spec := fun k j => if j < k0 k * k1 k then v j else .sub (v (j - k0 k * k1 k)) one },
-  { name := "asgadd_m", kind := .poly, keys := shapes, nOut := fun k => k0 k * k1 k, spec := fun k j => .add (v j) (v (k0 k * k1 k + j)) },
-  { name := "asgsub_m", kind := .poly, keys := shapes, nOut := fun k => k0 k * k1 k, spec := fun k j => .sub (v j) (v (k0 k * k1 k + j)) },
-  { name := "asgadd_s", kind := .poly, keys := shapes, nOut := fun k => k0 k * k1 k, spec := fun k j => .add (v j) (v (k0 k * k1 k)) },
-  { name := "asgsub_s", kind := .poly, keys := shapes, nOut := fun k => k0 k * k1 k, spec := fun k j => .sub (v j) (v (k0 k * k1 k)) },
-  { name := "asgmul_s", kind := .poly, keys := shapes, nOut := fun k => k0 k * k1 k, spec := fun k j => .mul (v j) (v (k0 k * k1 k)) },
-  { name := "asgdiv_s", kind := .frac, keys := shapes, nOut := fun k => k0 k * k1 k, spec := fun k j => .div (v j) (v (k0 k * k1 k)), allowed := fun k => [v (k0 k * k1 k)] },
-  { name := "asg_m", kind := .syn, keys := shapes, nOut := fun k => k0 k * k1 k, spec := fun _ j => v j },
-  { name := "row_get", kind := .syn, keys := shapeIdx, nOut := k0, spec := fun k c => v (c * k1 k + k2 k) },
-  { name := "row_set", kind := .syn, keys := shapeIdx, nOut := fun k => k0 k * k1 k, spec := fun k => rowSet (k0 k) (k1 k) (k2 k) },
-  { name := "col_get", kind := .syn, keys := shapeIdxC, nOut := k1, spec := fun k r => v (k2 k * k1 k + r) },
-  { name := "col_set", kind := .syn, keys := shapeIdxC, nOut := fun k => k0 k * k1 k, spec := fun k => colSet (k0 k) (k1 k) (k2 k) },
-  { name := "ctor_diag", kind := .syn, keys := shapes, nOut := fun k => k0 k * k1 k, spec := fun k => diag (k0 k) (k1 k) },
+    spec := fun k j => if j < k0 k * k1 k then v j else .sub (v (j - k0 k * k1 k)) one }
+def f_asgadd_m : Family :=
+  { name := "asgadd_m", kind := .poly, keys := shapes, nOut := fun k => k0 k * k1 k, spec := fun k j => .add (v j) (v (k0 k * k1 k + j)) }
+def f_asgsub_m : Family :=
+  { name := "asgsub_m", kind := .poly, keys := shapes, nOut := fun k => k0 k * k1 k, spec := fun k j => .sub (v j) (v (k0 k * k1 k + j)) }
+def f_asgadd_s : Family :=
+  { name := "asgadd_s", kind := .poly, keys := shapes, nOut := fun k => k0 k * k1 k, spec := fun k j => .add (v j) (v (k0 k * k1 k)) }
+def f_asgsub_s : Family :=
+  { name := "asgsub_s", kind := .poly, keys := shapes, nOut := fun k => k0 k * k1 k, spec := fun k j => .sub (v j) (v (k0 k * k1 k)) }
+def f_asgmul_s : Family :=
+  { name := "asgmul_s", kind := .poly, keys := shapes, nOut := fun k => k0 k * k1 k, spec := fun k j => .mul (v j) (v (k0 k * k1 k)) }
+def f_asgdiv_s : Family :=
+  { name := "asgdiv_s", kind := .frac, keys := shapes, nOut := fun k => k0 k * k1 k, spec := fun k j => .div (v j) (v (k0 k * k1 k)), allowed := fun k => [v (k0 k * k1 k)] }
+def f_asg_m : Family :=
+  { name := "asg_m", kind := .syn, keys := shapes, nOut := fun k => k0 k * k1 k, spec := fun _ j => v j }
+def f_row_get : Family :=
+  { name := "row_get", kind := .syn, keys := shapeIdx, nOut := k0, spec := fun k c => v (c * k1 k + k2 k) }
+def f_row_set : Family :=
+  { name := "row_set", kind := .syn, keys := shapeIdx, nOut := fun k => k0 k * k1 k, spec := fun k => rowSet (k0 k) (k1 k) (k2 k) }
+def f_col_get : Family :=
+  { name := "col_get", kind := .syn, keys := shapeIdxC, nOut := k1, spec := fun k r => v (k2 k * k1 k + r) }
+def f_col_set : Family :=
+  { name := "col_set", kind := .syn, keys := shapeIdxC, nOut := fun k => k0 k * k1 k, spec := fun k => colSet (k0 k) (k1 k) (k2 k) }
+def f_ctor_diag : Family :=
+  { name := "ctor_diag", kind := .syn, keys := shapes, nOut := fun k => k0 k * k1 k, spec := fun k => diag (k0 k) (k1 k) }
+def f_conv : Family :=
   { name := "conv", kind := .syn, keys := shapes4, nOut := fun k => k0 k * k1 k, spec := fun k => conv (k0 k) (k1 k) (k2 k) (k3 k) }
-]
+
+def families : List Family := [f_mul, f_asgmul_m, f_mulmv, f_mulvm, f_transpose, f_outer, f_compmult, f_addmm, f_submm, f_addms, f_addsm, f_subms, f_subsm, f_mulms, f_mulsm, f_divms, f_divsm, f_negm, f_posm, f_preinc, f_predec, f_postinc, f_postdec, f_asgadd_m, f_asgsub_m, f_asgadd_s, f_asgsub_s, f_asgmul_s, f_asgdiv_s, f_asg_m, f_row_get, f_row_set, f_col_get, f_col_set, f_ctor_diag, f_conv]
 
 def fam (n : String) : Family := findFam families n
 
